@@ -3,6 +3,7 @@ package cli
 import (
 	"encoding/json"
 	"fmt"
+	"github.com/FollowTheProcess/spok/file"
 	"os"
 	"path/filepath"
 	"strings"
@@ -151,6 +152,7 @@ func TestPlan(t *testing.T) {
 		}
 		bs := ev.RapidShards("binary", "^TestFindBinary$", nb, cb, nil)
 		p.Shards = append(p.Shards, bs...)
+		p.Shards = append(p.Shards, ev.ShardSpec{Name: "unprivileged-0", Test: "^TestFindUnprivileged$", AsNobody: true, TimeoutS: 900})
 		p.Shards = append(p.Shards, ev.ShardSpec{Name: "deep-0", Test: "^TestFindDeep$", TimeoutS: 1200})
 	}
 	if err := ev.WritePlan(p); err != nil {
@@ -211,6 +213,144 @@ func TestFindEnum(t *testing.T) {
 		}
 	}
 	s.Extra("enum_max_depth", findMaxDepth())
+	if s.Failed() {
+		t.Fatal("violations recorded")
+	}
+}
+
+// PermCase: a chain of four directories, each with or without a spokfile and with a mode, searched by
+// an unprivileged process (root ignores modes).
+type PermCase struct {
+	Spok  []bool `json:"spokfile"` // per level
+	Modes []int  `json:"modes"`    // per level: 0755, 0311 (search only), 0000
+	Start int    `json:"start"`
+	Stop  int    `json:"stop"` // level, -1 = unrelated
+}
+
+func execFindPerm(base string, c PermCase) *rp.Fail {
+	_ = filepath.WalkDir(base, func(p string, d os.DirEntry, err error) error {
+		if err == nil && d.IsDir() {
+			_ = os.Chmod(p, 0o755)
+		}
+		return nil
+	})
+	_ = os.RemoveAll(base)
+	dirs := []string{filepath.Join(base, "L")}
+	for i := 1; i < len(c.Spok); i++ {
+		dirs = append(dirs, filepath.Join(dirs[i-1], fmt.Sprintf("d%d", i)))
+	}
+	if err := os.MkdirAll(dirs[len(dirs)-1], 0o755); err != nil {
+		return &rp.Fail{Sig: "harness", Msg: err.Error()}
+	}
+	_ = os.MkdirAll(filepath.Join(base, "unrelated"), 0o755)
+	for i, d := range dirs {
+		if c.Spok[i] {
+			if err := os.WriteFile(filepath.Join(d, "spokfile"), []byte("# x\n"), 0o644); err != nil {
+				return &rp.Fail{Sig: "harness", Msg: err.Error()}
+			}
+		}
+	}
+	for i := len(dirs) - 1; i >= 0; i-- {
+		_ = os.Chmod(dirs[i], os.FileMode(c.Modes[i]))
+	}
+	defer func() {
+		for i := range dirs {
+			_ = os.Chmod(dirs[i], 0o755)
+		}
+	}()
+	stop := filepath.Join(base, "unrelated")
+	if c.Stop >= 0 {
+		stop = dirs[c.Stop]
+	}
+	got, err := file.Find(nopLogger{}, dirs[c.Start], stop)
+	lowest := 0
+	if c.Stop >= 0 && c.Stop <= c.Start {
+		lowest = c.Stop
+	}
+	desc := fmt.Sprintf("chain of %d directories, spokfile at levels %v, modes %o, start level %d, stop level %d, searched as uid %d", len(dirs), c.Spok, c.Modes, c.Start, c.Stop, os.Geteuid())
+	// the nearest spokfile by construction, and whether every directory up to it can be listed
+	nearest, clear := -1, true
+	for l := c.Start; l >= lowest; l-- {
+		// a directory can be listed when it is readable and every directory above it can be searched
+		listable := c.Modes[l]&0o400 != 0
+		for a := 0; a < l; a++ {
+			listable = listable && c.Modes[a]&0o100 != 0
+		}
+		if !listable {
+			clear = false
+		}
+		if c.Spok[l] {
+			nearest = l
+			break
+		}
+	}
+	size := len(dirs) + c.Start
+	if err == nil {
+		if nearest < 0 || got != filepath.Join(dirs[nearest], "spokfile") {
+			if c.Stop < 0 || c.Stop > c.Start {
+				return nil // start is not below stop: only termination is demanded there (see execFind)
+			}
+			return &rp.Fail{Sig: "found-non-regular-file", Size: size, Msg: fmt.Sprintf("%s: Find returned %q without an error; the nearest spokfile is at level %d (-1 = none)", desc, got, nearest)}
+		}
+		return nil
+	}
+	if nearest >= 0 && clear {
+		return &rp.Fail{Sig: "spokfile-missed", Size: size, Msg: fmt.Sprintf("%s: every directory up to level %d can be listed and holds the nearest spokfile there, but Find reported %v", desc, nearest, err)}
+	}
+	return nil
+}
+
+// TestFindUnprivileged: the search run by a user without special rights over chains in which directories
+// cannot be listed (mode 0311) or not even entered (mode 0).
+func TestFindUnprivileged(t *testing.T) {
+	s := ev.Open(t, "C17")
+	if os.Geteuid() == 0 {
+		s.Note("running as root: directory modes have no effect, nothing checked")
+		s.Eval()
+		return
+	}
+	s.Watchdog(10*time.Second, 4<<30)
+	defer s.Done()
+	base := filepath.Join(findBase(t), "perm")
+	modes := []int{0o755, 0o311, 0}
+	seen := map[string]bool{}
+	const depth = 3
+	var idx uint64
+	for sp := 0; sp < 1<<depth; sp++ {
+		for m := 0; m < 27; m++ {
+			for start := 0; start < depth; start++ {
+				for stop := -1; stop <= start; stop++ {
+					c := PermCase{Start: start, Stop: stop}
+					mm := m
+					for l := 0; l < depth; l++ {
+						c.Spok = append(c.Spok, sp&(1<<l) != 0)
+						c.Modes = append(c.Modes, modes[mm%3])
+						mm /= 3
+					}
+					idx++
+					data, _ := json.Marshal(c)
+					s.Progress(idx, data)
+					s.Tick()
+					s.Eval()
+					s.Class("chain_with_directory_modes")
+					if idx%211 == 0 {
+						s.Sample(c)
+					}
+					nontrivial := false
+					for _, md := range c.Modes {
+						nontrivial = nontrivial || md != 0o755
+					}
+					if nontrivial {
+						s.NonTrivial("perm" + string(data))
+					}
+					if f := execFindPerm(base, c); f != nil && !seen[f.Sig] {
+						seen[f.Sig] = true
+						s.Violation("unpriv-find", f.Sig, f.Msg, f.Size, c)
+					}
+				}
+			}
+		}
+	}
 	if s.Failed() {
 		t.Fatal("violations recorded")
 	}
@@ -350,6 +490,15 @@ func replayOther(t *testing.T, v ev.Violation, raw []byte) *rp.Fail {
 			t.Fatal(err)
 		}
 		return execForce(nil, newBox(t), c)
+	case "unpriv-find":
+		var c PermCase
+		if err := json.Unmarshal(raw, &c); err != nil {
+			t.Fatal(err)
+		}
+		if os.Geteuid() == 0 {
+			t.Skip("needs an unprivileged user")
+		}
+		return execFindPerm(filepath.Join(findBase(t), "perm"), c)
 	case "digestbin":
 		var c DigestCase
 		if err := json.Unmarshal(raw, &c); err != nil {
@@ -814,6 +963,20 @@ func TestKillPrefixes(t *testing.T) {
 				steps := []KStep{run("B"), {Op: "delete", File: "g1.c", CutAbs: -1}, mid, w("g1.c", "0"), run("B"), run("A", "B")}
 				s.Class("enumerated_emptied_glob_set")
 				one(KillCase{Tasks: gprog, Init: ginit, Steps: steps})
+			}
+		}
+		// three matched files on two CPUs (more files than hash workers): every file counts, also the last
+		if pi == 0 {
+			tprog := []KTask{{Name: "A", Globs: []string{"*.txt"}}, {Name: "B", Files: []string{"f2.txt"}, Deps: []string{"A"}}}
+			tinit := map[string]string{"f1.txt": "0", "f2.txt": "0", "zlast.txt": "0", "m.txt": "0"}
+			for _, cpus := range []string{"0,1", "0", "0,1,2"} {
+				for _, f := range []string{"zlast.txt", "f1.txt", "m.txt"} {
+					for _, mid := range []KStep{{Op: "run", Tasks: []string{"B"}, Kill: "A", CutAbs: -1}, {Op: "run", Tasks: []string{"B"}, Kill: "B", CutAbs: -1}} {
+						steps := []KStep{run("B"), mid, w(f, "1"), run("B"), w(f, "0"), run("B")}
+						s.Class("enumerated_more_files_than_cpus")
+						one(KillCase{Tasks: tprog, Init: tinit, Steps: steps, Cpus: cpus})
+					}
+				}
 			}
 		}
 		// every byte prefix of the cache file after the second run (length probed once: <= 200 bytes)
